@@ -138,6 +138,10 @@ def layout_specs(rng, n):
             # a float with explicit top+height reaching below the last terminal row: Screen.height > rows
             floats.append(Float(Window(FormattedTextControl(lambda: state["f"] or "m"), style="reverse"),
                                 left=rng.randint(0, 2), top=max(0, H - 2), height=rng.randint(3, 5), width=3))
+        if rng.random() < 0.35:
+            # a float with explicit left+width sticking out over the right edge: cells at columns >= width
+            floats.append(Float(Window(FormattedTextControl(lambda: (state["f"] or "ov") * 3), style="underline"),
+                                left=max(0, W - rng.randint(1, 3)), top=rng.randint(0, 1), width=rng.randint(3, 6), height=1))
         root = FloatContainer(body, floats=floats)
         app = Application(layout=Layout(root, focused_element=bw), input=DummyInput(),
                           output=Vt100_Output(io.StringIO(), lambda: Size(rows=H, columns=W), term="xterm"))
@@ -163,7 +167,7 @@ def layout_specs(rng, n):
             rows = {}
             for y, row in screen.data_buffer.items():
                 if 0 <= y < H:
-                    rows[y] = {x: (c.char, c.style) for x, c in row.items() if 0 <= x < W}
+                    rows[y] = {x: (c.char, c.style) for x, c in row.items() if 0 <= x}
             from prompt_toolkit.utils import get_cwidth
             if any(c[0] and get_cwidth(c[0]) == 2 and x == W - 1 for r in rows.values() for x, c in r.items()):
                 continue        # wide character straddling the right edge: outside the property's domain
@@ -206,6 +210,7 @@ def gen_specs(chk):
     add("exhaustive_pairs_w2", exhaustive_pairs(rng, 2, 1.0))
     add("exhaustive_pairs_w3", exhaustive_pairs(rng, 3, 1.0 if thorough else 0.03))
     add("styled_blank_runs", c06_gen.blank_run_specs(rng))
+    add("cells_beyond_right_border", c06_gen.overhang_specs(rng))
     n_small, n_big, n_tr = (12000, 6000, 1500) if thorough else (1500, 500, 150)
     add("random_small", (c06_gen.rand_spec(rng, 7, 4, rng.randint(1, 8)) for _ in range(n_small)))
     add("random_narrow_only", (c06_gen.rand_spec(rng, 7, 4, rng.randint(1, 8), wide_ok=False) for _ in range(n_small // 3)))
